@@ -9,13 +9,15 @@
   * `translate_glob_eq`: `_translate_glob` = `(levels, text)` of `Glob.translateGlobText` (`iteratepath` is
     the generated `PathGen.iteratepath`, identified with `Path.iteratepath` by `PathGenEq`).
   * `match` / `imatch` / `match_any` / `imatch_any` / `get_matcher` (modulo the LRU cache): equal to the hand
-    model through the regex text and the model of Python's parser (`Glob.translateGlobViaText`; that the
-    parse of the text is the AST of `Glob.translateGlob` is the `<parse-eq>` column of the C14 correspondence).
+    model `Glob.gmatch` / `Glob.matchAny` / `Glob.getMatcher` (`match_eq_gmatch`, …): through the regex text and
+    the model of Python's parser (`Glob.translateGlobViaText`), then by `RegexRoundTrip.glob_text_parses`
+    (the parse of the text is the compiled pattern of `Glob.translateGlob`, proved for every pattern).
     `get_matcher_eq` covers `accept_prefix=True`: the three nested loops build `Glob.prefixPatterns`.
 -/
 import FsModel.Generated.GlobGen
 import FsProofs.Lemmas.GlobGenLemmas
 import FsProofs.PathGenEq
+import FsProofs.RegexRoundTrip
 
 namespace Fs.GlobGenEq
 open Fs Fs.PyStr Fs.PyRe Fs.PyStrLemmas Fs.PathGenLemmas Fs.WildGenLemmas Fs.GlobGenLemmas Fs.Regex
@@ -325,5 +327,39 @@ theorem split_pattern_by_sep_eq (p : Str) :
   obtain ⟨o', rfl⟩ := key
   simp only []
   rw [slices_final p _ rfl]
+
+/-! ### against the AST model, unconditionally (`RegexRoundTrip.glob_text_parses`) -/
+
+theorem gmatchViaText_eq (p path : Str) (cs : Bool) : gmatchViaText p path cs = Glob.gmatch p path cs := by
+  simp only [gmatchViaText, Glob.gmatch, Glob.compile, RegexRoundTrip.glob_text_parses]
+
+theorem matchAnyViaText_eq (ps : List Str) (path : Str) (cs : Bool) :
+    matchAnyViaText ps path cs = Glob.matchAny ps path cs := by
+  have e : (fun p => gmatchViaText p path cs) = (fun p => Glob.gmatch p path cs) := by
+    funext p; exact gmatchViaText_eq p path cs
+  simp only [matchAnyViaText, Glob.matchAny, e]
+
+theorem match_eq_gmatch (p path : Str) : toTR (GlobGen.match p path) = Glob.gmatch p path true := by
+  rw [match_eq, gmatchViaText_eq]
+
+theorem imatch_eq_gmatch (p path : Str) : toTR (GlobGen.imatch p path) = Glob.gmatch p path false := by
+  rw [imatch_eq, gmatchViaText_eq]
+
+theorem match_any_eq_matchAny (ps : List Str) (path : Str) :
+    toTR (GlobGen.match_any ps path) = Glob.matchAny ps path true := by
+  rw [match_any_eq, matchAnyViaText_eq]
+
+theorem imatch_any_eq_matchAny (ps : List Str) (path : Str) :
+    toTR (GlobGen.imatch_any ps path) = Glob.matchAny ps path false := by
+  rw [imatch_any_eq, matchAnyViaText_eq]
+
+/-- `get_matcher(patterns, case_sensitive, accept_prefix)` returns the matcher of the hand model -/
+theorem get_matcher_eq_getMatcher (ps : List Str) (cs ap : Bool) :
+    ∃ m, GlobGen.get_matcher ps cs ap = .ok m ∧ ∀ path, toTR (m path) = Glob.getMatcher ps cs ap path := by
+  obtain ⟨m, hm, h⟩ := get_matcher_eq ps cs ap
+  refine ⟨m, hm, fun path => ?_⟩
+  rw [h path]
+  simp only [getMatcherViaText, Glob.getMatcher, matchAnyViaText_eq]
+  cases ps.isEmpty <;> rfl
 
 end Fs.GlobGenEq
